@@ -190,6 +190,9 @@ class SymSeq:
         return self._at(t)
 
     def _slice(self, sl):
+        if sl.step == -1 and sl.start is None and sl.stop is None:      # x[::-1]
+            n, at = self.n, self._at
+            return SymSeq(n, lambda j: at(n - 1 - lift(j)), self.elem_shape, self.name + "[::-1]")
         if sl.step not in (None, 1):
             raise Unsupported("slice step")
         lo = z3.IntVal(0) if sl.start is None else lift(sl.start)
